@@ -8,7 +8,7 @@ CHECKS = {
         "registered": True,
         "engine": "pmc-os",
         "technique": "stateless preemption-bounded exhaustive schedule enumeration of the real containers (controlled scheduler over hooked atomics) + exhaustive sequential op histories vs reference model",
-        "level_text": "Every interleaving of the containers' atomic steps within the stated deviation bound (all interleavings for the 2x2 index-queue programs), for every initial content and every op word of the small alphabet, is executed on the real code and checked for exactly-once delivery, no invention, successful quiescent pops and per-end order. Bounded-exhaustive, not sampled.",
+        "level_text": "Every interleaving of the containers' atomic steps within the stated deviation bound (all interleavings for the 2x2 index-queue programs), for every initial content and every op word of the small alphabet, is executed on the real code and checked for exactly-once delivery, no invention, successful quiescent pops and per-end order. Bounded-exhaustive, not sampled. Also: single-threaded phase histories with sizes across the block (32) and block-index (1024) boundaries of the FIFO back-end for all four back-ends; three consumers racing for fewer elements (3 deviations, focus on the dequeue path).",
         "level_note": "Sequentially consistent interleavings only (weak-memory reorderings are not modelled); compare_exchange_weak never fails spuriously; choice points at the atomics of the container sources (F-site) and the watched queue object; bounds per spec are in the evidence.",
         "rule": "pmc-os: initial contents x op words (data choices) x all schedules of the container's atomic steps within the deviation bound; sequential histories against a reference container",
         "parts": [{"bin": "C17_index_queue"}, {"bin": "C17_deque"}],
@@ -19,7 +19,7 @@ CHECKS["C06"] = {
     "registered": True,
     "engine": "pmc-rt",
     "technique": "stateless preemption-bounded exhaustive schedule enumeration of pika tasks on a live 2-worker runtime (controlled scheduler over hooked atomics + interposed pthreads, virtual clock)",
-    "level_text": "Every schedule within the deviation bound (preemptions at the atomics of the mutex object and the task state words, early timeouts) of every small lock/try_lock/timed/recursive/misuse program is executed on the real runtime; occupancy, critical-section visibility, hand-off (no stuck waiter), try-result truthfulness and error reporting are checked in each execution.",
+    "level_text": "Every schedule within the deviation bound (preemptions at the atomics of the mutex object and the task state words, early timeouts) of every small lock/try_lock/timed/recursive/misuse program is executed on the real runtime; occupancy, critical-section visibility, hand-off (no stuck waiter), try-result truthfulness and error reporting are checked in each execution. Critical sections contain a scheduling point; recursive spin mutex explored at 2 deviations.",
     "level_note": "Sequentially consistent interleavings only; 2 workers, 2-3 tasks, 1-2 critical sections each; choice points at atomics on the watched mutex and task thread_data (unwatched runtime internals run in canonical order); bounds per spec in the evidence.",
     "rule": "pmc-rt: task programs over {lock, try_lock, lock+yield, relock, try_lock_for/until, re-entrant lock} (data choices) x all schedules within the deviation bound",
     "parts": [{"bin": "C06_mutex"}],
@@ -29,7 +29,7 @@ CHECKS["C08"] = {
     "registered": True,
     "engine": "pmc-rt",
     "technique": "stateless deviation-bounded (preemptions + early timeouts) exhaustive schedule enumeration of semaphore programs on a live 2-worker runtime and on plain OS threads; sequential histories vs reference counter",
-    "level_text": "Every schedule within the deviation bound of every small acquire/try_acquire/release/timed-acquire program (all initial counts 0..2, programs that cannot terminate skipped), and of sliding-semaphore wait/try_wait/signal programs, is executed on the real code; a permit ledger, the final count, blocked-acquirer liveness (stuck detector) and the truthfulness of try/timed results are checked in each execution.",
+    "level_text": "Every schedule within the deviation bound of every small acquire/try_acquire/release/timed-acquire program (all initial counts 0..2, programs that cannot terminate skipped), and of sliding-semaphore wait/try_wait/signal programs, is executed on the real code; a permit ledger, the final count, blocked-acquirer liveness (stuck detector) and the truthfulness of try/timed results are checked in each execution. Further programs: two blocked acquirers and two releases (back to back / release(2) / two releasers), timed acquires with two different time-outs, sliding semaphore reconfigured (set_max_difference) while a task is blocked.",
     "level_note": "Sequentially consistent interleavings only; 2 workers, 2-3 tasks; the virtual clock only lets a deadline pass as an explorer deviation or when nothing else can run; choice points at atomics on the semaphore object and task state words.",
     "rule": "pmc-rt/pmc-os: initial count x op words (data choices) x all schedules within the deviation bound; sequential histories depth<=4",
     "parts": [{"bin": "C08_semaphore"}],
@@ -39,7 +39,7 @@ CHECKS["C07"] = {
     "registered": True,
     "engine": "pmc-rt",
     "technique": "stateless deviation-bounded (preemptions + early timeouts) exhaustive schedule enumeration of waiter/notifier programs on a live 2-worker runtime and on plain OS threads",
-    "level_text": "Every schedule within the deviation bound of every waiter-form x notifier-form program (wait loop, wait(pred), wait_for(pred), wait_until loop, stop-token wait; notify_all/notify_one, inside/outside the user lock) is executed on the real code; lost notifications show up as a stuck execution, and lock ownership on return, predicate values, timeout reports and stop-token returns are asserted in each execution.",
+    "level_text": "Every schedule within the deviation bound of every waiter-form x notifier-form program (wait loop, wait(pred), wait_for(pred), wait_until loop, stop-token wait; notify_all/notify_one, inside/outside the user lock) is executed on the real code; lost notifications show up as a stuck execution, and lock ownership on return, predicate values, timeout reports and stop-token returns are asserted in each execution. Further programs: one notify_one for an untimed and a timed (predicate-less) waiter; a stop-token wait queued behind another waiter of the same condition variable.",
     "level_note": "Sequentially consistent interleavings only; 2 workers, 1-2 waiters, 1 notifier; timed waits are pika's yield-until-deadline loops driven by the virtual clock (expiry before/after the notification is an explorer deviation); timed forms on plain OS threads are not exercised (pika implements them with a plain sleep).",
     "rule": "pmc-rt/pmc-os: waiter forms x notifier forms (data choices) x all schedules within the deviation bound",
     "parts": [{"bin": "C07_condvar"}],
@@ -49,7 +49,7 @@ CHECKS["C02"] = {
     "registered": True,
     "engine": "pmc-rt",
     "technique": "stateless preemption-bounded exhaustive schedule enumeration of suspend/wake-up programs on a live 2-worker runtime; quiescence-with-suspended-task (stuck) detector as oracle",
-    "level_text": "Every schedule within the deviation bound of suspender/waker programs (waker = task on the other worker or external non-pika thread, optional busy task, one or two waiters, cv and mutex facilities) is executed on the real runtime; a quiescent runtime with an issued wake-up and a task that did not run again is reported, with the pool's thread counts.",
+    "level_text": "Every schedule within the deviation bound of suspender/waker programs (waker = task on the other worker or external non-pika thread, optional busy task, one or two waiters, cv and mutex facilities) is executed on the real runtime; a quiescent runtime with an issued wake-up and a task that did not run again is reported, with the pool's thread counts. Further programs: two wake-ups with different restart states (notify_one + interrupt), a notified timed wait (the pending_boost path).",
     "level_note": "Sequentially consistent interleavings only; 2 workers; choice points at the waiter state words, the internal lock/condition variable and at the atomics of set_thread_state, set_active_state, do_yield/do_resume, create_work and switch_status (F-site); fairness is the spin detector of the scheduler. The Promela layer sketched in DESIGN.md was not built.",
     "rule": "pmc-rt: suspender / waker / helper-task programs x all schedules within the deviation bound",
     "parts": [{"bin": "C02_wakeup"}],
@@ -69,7 +69,7 @@ CHECKS["C14"] = {
     "registered": True,
     "engine": "seqx + pmc-os + pmc-rt",
     "technique": "BFS over sequential copy/move/assign/register histories vs a reference stop-state model (de-duplicated on the model state, every transition replayed on the real objects) + stateless preemption-bounded exhaustive schedule enumeration of racing request_stop / register / destroy programs",
-    "level_text": "All operation histories to depth 5 (6 thorough) over 2 sources, 2 tokens and 2 callbacks are executed on the real classes, on a plain thread and inside a pika task, and compared step by step with a reference model (stop_possible, stop_requested, request_stop results, callback run counts; a history that does not return is a reported hang). Racing request_stop callers, registration vs request_stop, destruction vs a running callback and self-deregistration are explored over every schedule within the deviation bound on OS threads and on pika tasks.",
+    "level_text": "All operation histories to depth 5 (6 thorough) over 2 sources, 2 tokens and 2 callbacks are executed on the real classes, on a plain thread and inside a pika task, and compared step by step with a reference model (stop_possible, stop_requested, request_stop results, callback run counts; a history that does not return is a reported hang). Racing request_stop callers, registration vs request_stop, destruction vs a running callback and self-deregistration are explored over every schedule within the deviation bound on OS threads and on pika tasks. Also: token queries (stop_possible / stop_requested) racing with callback registration and deregistration, with and without a remaining stop_source.",
     "level_note": "Sequentially consistent interleavings only; 2-3 racing threads/tasks; callbacks contain two harness scheduling points so that the 'is executing' window is wide; histories are bounded by depth, not by the number of objects (2 of each).",
     "rule": "seqx: BFS histories depth<=5/6; pmc: race programs x all schedules within the deviation bound",
     "parts": [{"bin": "C14_stop_seq", "part": "seq"}, {"bin": "C14_stop_race", "part": "race"}],
@@ -79,7 +79,7 @@ CHECKS["C13"] = {
     "registered": True,
     "engine": "pmc-rt",
     "technique": "stateless preemption-bounded exhaustive schedule enumeration of create/join/detach/interrupt/jthread programs on a live 2-worker runtime",
-    "level_text": "Every schedule within the deviation bound of thread programs (target bodies: return, yield twice, wait for a flag, spawn and join a child; joiner: creator or another task; detach, double join, self join; jthread destructor; interrupt with a disabled window and a sibling) is executed on the real runtime; body_done at join return, joinable(), the documented error codes, the phase in which an interruption is observed and an unaffected sibling are asserted; a join that never returns shows up as a stuck execution.",
+    "level_text": "Every schedule within the deviation bound of thread programs (target bodies: return, yield twice, wait for a flag, spawn and join a child; joiner: creator or another task; detach, double join, self join; jthread destructor; interrupt with a disabled window and a sibling) is executed on the real runtime; body_done at join return, joinable(), the documented error codes, the phase in which an interruption is observed and an unaffected sibling are asserted; a join that never returns shows up as a stuck execution. Also: an interruption request refused while the blocked target has interruption disabled; nested disable_interruption guards.",
     "level_note": "Sequentially consistent interleavings only; 2 workers; choice points at creator/joiner state words, the whole thread_data of the target and the atomics of exit-callback registration/run, thread::join, set_thread_state, interrupt_thread and stop_state (F-site).",
     "rule": "pmc-rt: thread bodies x joiners (data choices) x all schedules within the deviation bound",
     "parts": [{"bin": "C13_thread_join"}],
@@ -89,7 +89,7 @@ CHECKS["C01"] = {
     "registered": True,
     "engine": "pmc-rt",
     "technique": "stateless preemption-bounded exhaustive schedule enumeration of task trees on a live runtime (1-2 workers, all 8 scheduling policies) with an entry/exit ledger and a single-runner monitor",
-    "level_text": "Every schedule within the deviation bound of task-tree programs (root submitted from a non-pika thread, 2-3 children created by execute() or as detached pika::thread, two phases each from work / yield / boosted yield / suspend-until-event, two priorities) is executed on the real runtime under each of the 8 scheduling policies; each body must be entered and left exactly once, never be active on two workers, and a quiescent runtime with an unfinished task is reported as a dropped task.",
+    "level_text": "Every schedule within the deviation bound of task-tree programs (root submitted from a non-pika thread, 2-3 children created by execute() or as detached pika::thread, two phases each from work / yield / boosted yield / suspend-until-event, two priorities) is executed on the real runtime under each of the 8 scheduling policies; each body must be entered and left exactly once, never be active on two workers, and a quiescent runtime with an unfinished task is reported as a dropped task. Further programs: thread objects recycled after an undelivered interruption request, two external resumers racing for one suspended task, more blocked tasks than the queue's thread map holds (staged tasks beyond max_thread_count).",
     "level_note": "Sequentially consistent interleavings only; workers 1-2 (statement: 1..16); busy/idle loop limits set to 4 so that the direct-switch and idle paths occur within a few phases; quick tier: choice points at task state words and the rmw/cas sites of thread_data state transitions, set_thread_state and scheduling_loop; thorough tier adds whole thread_data and all queue bookkeeping sites for the default policy.",
     "rule": "pmc-rt: task trees (data choices) x 8 policies x workers {1,2} x all schedules within the deviation bound",
     "parts": [{"bin": "C01_tasks"}],
@@ -99,7 +99,7 @@ CHECKS["C05"] = {
     "registered": True,
     "engine": "pmc-rt",
     "technique": "stateless preemption-bounded exhaustive schedule enumeration of runtime life-cycle histories (start/submit/wait/finalize/stop/restart/suspend/resume, external submitter) on the real runtime with a completion ledger read right after each call returns",
-    "level_text": "Every schedule within the deviation bound of the life-cycle histories is executed on the real runtime: wait() and stop() must not return before every task submitted earlier (and every task those spawn) has finished, stop() must not return before finalize() and must return the entry function's result, a second incarnation with a different worker count and policy runs its own work completely, no body runs between suspend() returning and resume(), and work queued in that window completes after resume; calls that never return are stuck executions.",
+    "level_text": "Every schedule within the deviation bound of the life-cycle histories is executed on the real runtime: wait() and stop() must not return before every task submitted earlier (and every task those spawn) has finished, stop() must not return before finalize() and must return the entry function's result, a second incarnation with a different worker count and policy runs its own work completely, no body runs between suspend() returning and resume(), and work queued in that window completes after resume; calls that never return are stuck executions. Further histories: five restarts in a row, stop() entered while an entry function has returned non-zero without finalizing, resume(); suspend() back to back before work is queued.",
     "level_note": "Sequentially consistent interleavings only; 1-2 workers, 4 policies; choice points at store/rmw/cas sites of the activity counter, thread_manager, scheduled_thread_pool, scheduler_base suspend/resume, runtime wait/stop/finalize and create/destroy_thread (F-site); all pthread blocking points are scheduling decisions.",
     "rule": "pmc-rt: life-cycle histories x policies (data choices) x all schedules within the deviation bound",
     "parts": [{"bin": "C05_lifecycle"}],
@@ -109,7 +109,7 @@ CHECKS["C04"] = {
     "registered": True,
     "engine": "pmc-os",
     "technique": "stateless preemption-bounded exhaustive schedule enumeration of async_rw_mutex request words with two starting threads on the real header-only code; grant log checked against request order",
-    "level_text": "Every schedule within the deviation bound of every request word over {read, readwrite} up to length 3 (4 thorough), with every assignment of the accesses to two starting threads or 'dropped unstarted', with and without destroying the mutex right after the requests and with copied read wrappers, is executed on the real code; at every grant the log is checked for overlap, request order, the version seen; every started access must be granted exactly once (stuck otherwise) and the wrapped value must die exactly once, after the last wrapper.",
+    "level_text": "Every schedule within the deviation bound of every request word over {read, readwrite} up to length 3 (4 thorough), with every assignment of the accesses to two starting threads or 'dropped unstarted', with and without destroying the mutex right after the requests and with copied read wrappers, is executed on the real code; at every grant the log is checked for overlap, request order, the version seen; every started access must be granted exactly once (stuck otherwise) and the wrapped value must die exactly once, after the last wrapper. Consumption modes: start_detached, manual connect/start with the operation states kept alive to the end, wrapper dropped inside the continuation which then waits for the next access; never-started accesses as dropped sender or as connected operation state destroyed unstarted; the void specialisation with the same programs.",
     "level_note": "Sequentially consistent interleavings only; 2 starting threads; choice points at all atomics of async_rw_mutex.hpp, the shared_ptr control blocks and start_detached (F-site); the non-void specialisation.",
     "rule": "pmc-os: request words x roles x options (data choices) x all schedules within the deviation bound",
     "parts": [{"bin": "C04_async_rw_mutex"}],
@@ -129,7 +129,7 @@ CHECKS["C11"] = {
     "registered": True,
     "engine": "seqx + pmc-rt",
     "technique": "exhaustive input grid (every n up to a bound x worker counts x shape types x throwing sets) through the real bulk on a live runtime + real chunking arithmetic at type boundaries with a hang watchdog + stateless preemption-bounded schedule enumeration of the chunk-stealing workers",
-    "level_text": "Grid: every n in [0,300] (2048 thorough) x workers {1,2,3,4,16} x 7 integral shape types x throwing sets is run through the real thread-pool bulk with per-index counters; chunking arithmetic: the real get_chunk_size at 2^k-1, 2^k, 2^k+1 and max(Shape) for 5 shape types x 7 thread counts must return, tile [0,n) and produce a chunk count that fits init_queue. Schedules: for n <= 4 (5 on 3 workers), every throwing set and both start contexts, every schedule of the workers popping/stealing index chunks within the deviation bound is executed; per-index call counts, unchanged values, exactly one completion after the last call (or exactly one of the thrown errors) are asserted.",
+    "level_text": "Grid: every n in [0,300] (2048 thorough) x workers {1,2,3,4,16} x 7 integral shape types x throwing sets is run through the real thread-pool bulk with per-index counters; chunking arithmetic: the real get_chunk_size at 2^k-1, 2^k, 2^k+1 and max(Shape) for 5 shape types x 7 thread counts must return, tile [0,n) and produce a chunk count that fits init_queue. Schedules: for n <= 4 (5 on 3 workers), every throwing set and both start contexts, every schedule of the workers popping/stealing index chunks within the deviation bound is executed; per-index call counts, unchanged values, exactly one completion after the last call (or exactly one of the thrown errors) are asserted. Values of non-trivially-movable types (string, vector, unique_ptr) for n <= 4 including n == 0.",
     "level_note": "The grid runs on a free-running runtime (it enumerates inputs, not schedules); the very-large-n region is checked at the chunking-arithmetic level only (executing 2^32 calls is infeasible); shape types narrower than int do not compile with the pool's bulk (std::min(int, Shape)) and are therefore outside what can be executed; pmc part: sequentially consistent interleavings, 2-3 workers.",
     "rule": "seqx grid + arithmetic boundaries; pmc-rt: n x throwing sets x start context (data choices) x all schedules within the deviation bound",
     "parts": [{"bin": "C11_bulk_grid", "part": "grid"}, {"bin": "C11_bulk", "part": "schedules"}],
@@ -139,7 +139,7 @@ CHECKS["C10"] = {
     "registered": True,
     "engine": "pmc-rt",
     "technique": "stateless preemption-bounded exhaustive schedule enumeration of placement programs on a live runtime with two pools / static policies; every callable records pool, worker, task-ness and whether it ran inside the submitting call",
-    "level_text": "Every schedule within the deviation bound of pipelines over a default(2)+aux(1) pool layout (schedule/then/continues_on, execute, transfer_just, bulk, priority and hint properties, submitted from the main thread and from a task), of a hinted normal-priority task with yields and a suspension under the static and static-priority policies (hint and waker placement enumerated) and of std_thread_scheduler work is executed on the real runtime; each callable must run as a task of the denoted pool, never inside the submitting call, every phase of the hinted task on the hinted worker, and std_thread_scheduler work on a fresh non-pika thread.",
+    "level_text": "Every schedule within the deviation bound of pipelines over a default(2)+aux(1) pool layout (schedule/then/continues_on, execute, transfer_just, bulk, priority and hint properties, submitted from the main thread and from a task), of a hinted normal-priority task with yields and a suspension under the static and static-priority policies (hint and waker placement enumerated) and of std_thread_scheduler work is executed on the real runtime; each callable must run as a task of the denoted pool, never inside the submitting call, every phase of the hinted task on the hinted worker, and std_thread_scheduler work on a fresh non-pika thread. Also: a hinted task on a second pool whose worker numbers differ from the global ones, bulk on a hinted scheduler, yield_to towards a task of another pool (known finding).",
     "level_note": "Sequentially consistent interleavings only; one pool layout, 2 static policies; choice points at the rmw/cas sites of set_thread_state/set_active_state, the schedulers' schedule_thread/create_thread, thread_pool_scheduler, schedule_from and scheduling_loop plus the watched state words and event.",
     "rule": "pmc-rt: placement programs (data choices) x all schedules within the deviation bound",
     "parts": [{"bin": "C10_placement"}],
@@ -149,7 +149,7 @@ CHECKS["C12"] = {
     "registered": True,
     "engine": "pmc-rt",
     "technique": "stateless preemption-bounded exhaustive schedule enumeration (= enumeration of migration and recycling patterns) of canary-carrying task bodies on a live 2-worker runtime",
-    "level_text": "Every schedule within the deviation bound - i.e. every pattern of which worker resumes which task and in which order thread objects are recycled - of bodies that plant stack canaries at call depth, key-derived callee-saved register canaries (assembly probe around the switch), task-local data and identity, and then yield or suspend twice, for all four stack classes with 2-3 live tasks, is executed on the real runtime; after every switch everything is compared, locals must lie inside the task's own stack and stacks of live tasks must be disjoint; successors of a predecessor that leaves an unconsumed interruption request and task data behind must start clean; a separate program checks the floating-point control state.",
+    "level_text": "Every schedule within the deviation bound - i.e. every pattern of which worker resumes which task and in which order thread objects are recycled - of bodies that plant stack canaries at call depth, key-derived callee-saved register canaries (assembly probe around the switch), task-local data and identity, and then yield or suspend twice, for all four stack classes with 2-3 live tasks, is executed on the real runtime; after every switch everything is compared, locals must lie inside the task's own stack and stacks of live tasks must be disjoint; successors of a predecessor that leaves an unconsumed interruption request and task data behind must start clean; a separate program checks the floating-point control state. Also: thread objects recycled across stack-size classes (distinct sizes per class) and the stack-size class 'current' for children and grandchildren at normal and high priority.",
     "level_note": "Sequentially consistent interleavings only; 2 workers; default stack sizes, default guard-page setting; stack overflow probing is not attempted; the 'program' dimension is small (two switches, depth 0 or 3) - the value of the check is the exhaustive migration x recycling product.",
     "rule": "pmc-rt: canary bodies x stack classes x switch kinds (data choices) x all schedules within the deviation bound",
     "parts": [{"bin": "C12_context"}],
@@ -159,7 +159,7 @@ CHECKS["C18"] = {
     "registered": True,
     "engine": "seqx",
     "technique": "BFS over wrapper operation histories de-duplicated on the reference model, every transition replayed on fresh real wrappers and compared step by step with the un-erased behaviour (differential) + lifetime ledger",
-    "level_text": "All histories to depth 4 (5 thorough) over two wrapper slots - assign a small / larger-than-inline-buffer / throwing / move-only callable or empty, copy-assign (incl. self), move-assign, reset, swap, call, copy-construct a temporary - for function and unique_function, and 12 move/copy/reset/connect scripts x inline/heap stored sender x value/error/stopped for any_sender and unique_any_sender, are executed on the real wrappers; empty flags, call results (per-copy counters show copies are independent), exception kinds on empty use, and the number of live instances per payload kind after every step and at the end are compared with the un-erased reference.",
+    "level_text": "All histories to depth 4 (5 thorough) over two wrapper slots - assign a small / larger-than-inline-buffer / throwing / move-only callable or empty, copy-assign (incl. self), move-assign, reset, swap, call, copy-construct a temporary - for function and unique_function, and 12 move/copy/reset/connect scripts x inline/heap stored sender x value/error/stopped for any_sender and unique_any_sender, are executed on the real wrappers; empty flags, call results (per-copy counters show copies are independent), exception kinds on empty use, and the number of live instances per payload kind after every step and at the end are compared with the un-erased reference. Sender wrappers: all histories up to depth 3 (thorough 4) over two slots x {store small/large, move-assign, copy-assign, assign empty, reset, move-construct, connect as rvalue / lvalue} x value/error/stopped; function wrappers: move construction added, all histories up to depth 3 (thorough 4) without de-duplication.",
     "level_note": "Sequential code only; two slots; one payload clearly below and one clearly above the inline buffer size rather than every size around the threshold.",
     "rule": "seqx: BFS histories depth<=4/5 over 2 slots; sender scripts grid",
     "parts": [{"bin": "C18_type_erasure", "part": "seq"}],
@@ -169,7 +169,7 @@ CHECKS["C19"] = {
     "registered": True,
     "engine": "pmc-rt",
     "technique": "stateless preemption-bounded exhaustive schedule enumeration of suspend/resume histories on a live runtime (2-worker elastic pool + control pool) with a completion ledger",
-    "level_text": "Every schedule within the deviation bound of histories {submit, suspend processing unit k, submit with hint k / other hint / no hint, resume k (also back-to-back after suspend), submit; pool suspend, submit, resume; refused operations}, issued from the main thread or from a task of another pool, is executed on the real runtime; each task must run exactly once by the end, nothing may run on a suspended pool, the calls must return (stuck otherwise), refused operations must report the documented error and leave the pool running.",
+    "level_text": "Every schedule within the deviation bound of histories {submit, suspend processing unit k, submit with hint k / other hint / no hint, resume k (also back-to-back after suspend), submit; pool suspend, submit, resume; refused operations}, issued from the main thread or from a task of another pool, is executed on the real runtime; each task must run exactly once by the end, nothing may run on a suspended pool, the calls must return (stuck otherwise), refused operations must report the documented error and leave the pool running. Further histories: a task blocked on the suspended worker's queue across the suspension; pool suspension on top of individually suspended workers.",
     "level_note": "Sequentially consistent interleavings only; 2-worker pool with local-priority-fifo + elasticity; at most 2 non-canonical successor choices at blocking points per execution in addition to the deviation bound; choice points at the per-worker state words and the store/rmw/cas sites of scheduler_base suspend/resume/select_active_pu and the pool's suspend/resume functions.",
     "rule": "pmc-rt: suspend/resume histories (data choices) x all schedules within the deviation bound",
     "parts": [{"bin": "C19_suspend_pu"}],
@@ -182,7 +182,7 @@ CHECKS["C15"] = {
     "registered": True,
     "engine": "seqx",
     "technique": "exhaustive configuration grid: synthetic hwloc topologies x every process mask x binding modes x thread counts through the real affinity_data::init, plus a live grid on the real machine reading each worker's OS affinity",
-    "level_text": "For 9 synthetic topologies (4 to 16 PUs, with and without SMT, 1-2 sockets, one with the interleaved OS numbering of a hyper-threaded machine so that OS and logical PU numbers differ), every non-empty process mask (16 PUs: a structured family in the quick tier, all 65535 in the thorough tier), the binding modes compact / scatter / balanced / numa-balanced / none and every thread count from 1 to |mask|+1 are pushed through the real affinity_data::init: each worker must get exactly one PU inside the mask, no two workers the same PU, the reported PU number must be the bound one, |mask|+1 threads must be rejected and 'none' must leave workers unbound. Live grid: thread counts x 4 modes x 1-2 pools on the real 16-PU machine, each worker's sched_getaffinity read from a task and compared with what pika reports; pool sizes must add up.",
+    "level_text": "For 9 synthetic topologies (4 to 16 PUs, with and without SMT, 1-2 sockets, one with the interleaved OS numbering of a hyper-threaded machine so that OS and logical PU numbers differ), every non-empty process mask (16 PUs: a structured family in the quick tier, all 65535 in the thorough tier), the binding modes compact / scatter / balanced / numa-balanced / none and every thread count from 1 to |mask|+1 are pushed through the real affinity_data::init: each worker must get exactly one PU inside the mask, no two workers the same PU, the reported PU number must be the bound one, |mask|+1 threads must be rejected and 'none' must leave workers unbound. Live grid: thread counts x 4 modes x 1-2 pools on the real 16-PU machine, each worker's sched_getaffinity read from a task and compared with what pika reports; pool sizes must add up. One synthetic topology has the interleaved OS numbering of a hyper-threaded machine (process masks are OS numbers, worker masks logical; the oracle converts through hwloc itself); the live grid also compares the PU number the resource partitioner reports.",
     "level_note": "Topologies up to 16 PUs with homogeneous cores; process masks are injected through topology::set_cpubind_mask_main_thread (what --pika:process-mask does); pu_offset/pu_step left at their defaults; explicit affinity descriptions (thread:0=core:1...) are not enumerated.",
     "rule": "seqx grid over topologies x masks x modes x thread counts; live grid",
     "parts": [{"bin": "C15_affinity", "part": n, "args": ["--only", n], "env": {"HWLOC_SYNTHETIC": t, "HWLOC_THISSYSTEM": "0"}} for n, t in _C15_TOPOS]
@@ -193,7 +193,7 @@ CHECKS["C16"] = {
     "registered": True,
     "engine": "seqx",
     "technique": "exhaustive configuration grid, one process per point: sources^settings combinations, invalid values, unknown options and non-pika arguments run through a real pika program that reports the values in effect from inside the runtime; reference resolver as oracle",
-    "level_text": "For the settings worker count, scheduling policy, binding, small stack size, process mask and a free ini entry, every non-empty subset of their sources {command-line option, environment variable, PIKA_COMMANDLINE_OPTIONS, --pika:ini} with the other settings at default, every source pair for every pair of settings (thorough: triples), option-order permutations, invalid values and unknown options per source, and non-pika arguments are each run as a separate process of a probe program; the values the started runtime really uses (worker count, scheduler in use, worker affinities, stack size of a task, config entries) must be the ones the precedence denotes, invalid/unknown input must stop start-up with a message, positional arguments must arrive in order and application options as given.",
+    "level_text": "For the settings worker count, scheduling policy, binding, small stack size, process mask and a free ini entry, every non-empty subset of their sources {command-line option, environment variable, PIKA_COMMANDLINE_OPTIONS, --pika:ini} with the other settings at default, every source pair for every pair of settings (thorough: triples), option-order permutations, invalid values and unknown options per source, and non-pika arguments are each run as a separate process of a probe program; the values the started runtime really uses (worker count, scheduler in use, worker affinities, stack size of a task, config entries) must be the ones the precedence denotes, invalid/unknown input must stop start-up with a message, positional arguments must arrive in order and application options as given. Settings include all four stack-size classes; sources include --pika:ini entries inside PIKA_COMMANDLINE_OPTIONS; invalid values include process masks with bits past the last PU.",
     "level_note": "Where the statement gives no order (environment variable vs PIKA_COMMANDLINE_OPTIONS; a dedicated option vs a generic --pika:ini entry for the same key) either candidate is accepted; application options are compared as a multiset (pika hands them to the entry function re-ordered, positional arguments keep their order); the real 16-PU machine, no synthetic topology.",
     "rule": "seqx grid, process per point",
     "parts": [{"bin": "C16_probe", "part": "probe-build", "kind": "buildonly"}, {"kind": "script", "bin": "harness/c16_grid.py", "part": "grid"}],
@@ -205,7 +205,7 @@ CHECKS["C20"] = {
     "registered": True,
     "engine": "pmc-rt + mock MPI",
     "technique": "stateless deviation-bounded exhaustive exploration of thread schedules and of the MPI environment's poll answers (pending/complete) on the MPI-enabled instrumented build, with MPI_Test/Testany/Testsome mocked in the harness executable",
-    "level_text": "For every completion mode 0-31, with and without a dedicated polling pool, with 1-2 outstanding requests, every combination of 'still pending' answers of the mock MPI and every thread schedule within the deviation bound is executed on the real polling code; each receiver must be signalled exactly once, only after the mock reported its request complete and with the received data visible, and pika::wait() must not return while a request is in flight (a lost completion is a stuck execution). A directed 34-request program holds back the first 33 requests until the last has completed (pika tests the polling vector in chunks of 32).",
+    "level_text": "For every completion mode 0-31, with and without a dedicated polling pool, with 1-2 outstanding requests, every combination of 'still pending' answers of the mock MPI and every thread schedule within the deviation bound is executed on the real polling code; each receiver must be signalled exactly once, only after the mock reported its request complete and with the received data visible, and pika::wait() must not return while a request is in flight (a lost completion is a stuck execution). A directed 34-request program holds back the first 33 requests until the last has completed (pika tests the polling vector in chunks of 32). Further programs: a detached request with pika::wait() as the only waiter; two requests with a dedicated polling pool where MPI test calls take time (scheduling point + yields inside the mock) and requests do not complete eagerly.",
     "level_note": "MPI itself is mocked (requests are harness objects, completion is the explorer's choice); real OpenMPI progress and timing are not exercised; the MPIX continuation modes (32-39) need an MPI extension that is not installed; sequentially consistent interleavings; at most 2 non-canonical successor choices at blocking points per execution.",
     "rule": "pmc-rt: modes x requests x poll answers (data choices, pending costs a deviation) x all schedules within the deviation bound",
     "parts": [{"bin": "C20_mpi", "pika_build": "pika-mpi-mc", "extra": _MPI_EXTRA, "extralibs": _MPI_LIBS}],
